@@ -81,6 +81,21 @@ Check C10_entry_config : forall A cfg c domain, NvNoTrunc A -> usv_list domain -
   | Ok (_, r) => Ok r | Err => Err | Panic p => Panic p end.
 Print Assumptions C10_entry_config.
 
+(* the output clause at the other entry points (out_ok deny r: every character of r is ASCII, not upper case,
+   not in deny): domain_to_ascii_cow, domain_to_ascii, domain_to_ascii_strict, deprecated Config::to_ascii *)
+Theorem C10_ascii_entry : forall A cfg, NvNoTrunc A ->
+  (forall d deny b r, bytes d -> valid_deny deny -> domain_to_ascii_cow A cfg d deny = Ok (b, r) -> out_ok deny r) /\
+  (forall s r, usv_list s -> domain_to_ascii A cfg s = Ok r -> out_ok DENY_EMPTY r) /\
+  (forall s r, usv_list s -> domain_to_ascii_strict A cfg s = Ok r -> out_ok DENY_STD3 r) /\
+  (forall c s r, usv_list s -> config_to_ascii A cfg c s = Ok r -> out_ok (config_deny_list c) r).
+Proof. exact entry_points_output. Qed.
+Check C10_ascii_entry : forall A cfg, NvNoTrunc A ->
+  (forall d deny b r, bytes d -> valid_deny deny -> domain_to_ascii_cow A cfg d deny = Ok (b, r) -> out_ok deny r) /\
+  (forall s r, usv_list s -> domain_to_ascii A cfg s = Ok r -> out_ok DENY_EMPTY r) /\
+  (forall s r, usv_list s -> domain_to_ascii_strict A cfg s = Ok r -> out_ok DENY_STD3 r) /\
+  (forall c s r, usv_list s -> config_to_ascii A cfg c s = Ok r -> out_ok (config_deny_list c) r).
+Print Assumptions C10_ascii_entry.
+
 (* ASCII / lower case / fixed point, the fastest tier only *)
 Theorem C10_ascii_partial : forall A cfg d deny hy, bytes d -> fast_tier d d = None ->
   to_ascii A cfg d deny hy DIgnore = Ok (true, d) /\ Forall lower_or_dot d.
